@@ -225,3 +225,72 @@ func imageOfParam(f *FC, t ir.Term) int {
 	}
 	return -1
 }
+
+// Tparams provenance (C03.f).  Explicit type arguments bind to type parameters BY POSITION (f<int, string> gives the
+// first declared parameter int), and the emitted Go lists them in the same order; so the Tparams list of every
+// declaration value must be the declared list itself: a parameter handed in, the .Tparams of an existing
+// declaration, or the identifier list the parser read between `<` and `>`.  A list recomputed from the signature
+// (first appearance, sorted, distinct …) has the same elements in another order.  The one frozen exception is
+// inference: an un-annotated let has no declared list, its parameters are numbered by first occurrence (C02.c).
+var tparamsExceptions = map[string]string{
+	"InferLfd": "inferred type parameters have no declared order: they are the leftover variables numbered by first occurrence (closed form pinned under C02.c)",
+}
+
+func checkTparamsProvenance(c *Ctx, rule string, f *FC) {
+	r := c.R
+	n := 0
+	for _, fn := range f.Prog.Funcs {
+		if !fn.Generated || fn.Decl == nil {
+			continue
+		}
+		fn := fn
+		pos := c.Pos(f.M.Fset, fn.Decl.Pos())
+		k := 0
+		seen := map[string]bool{}
+		ir.Walk(f.N.Func(fn), func(t ir.Term) bool {
+			rec, ok := t.(*ir.Record)
+			if !ok {
+				return true
+			}
+			for _, fv := range rec.Fields {
+				if fv.Name != "Tparams" {
+					continue
+				}
+				text := ir.String(f.Path, fv.Val)
+				tn := "?"
+				if named, ok := rec.Type.(*types.Named); ok {
+					tn = named.Obj().Name()
+				}
+				if seen[tn+"|"+text] {
+					continue
+				}
+				seen[tn+"|"+text] = true
+				n++
+				k++
+				cons := sprintf("%s.Tparams#%d", tn, k)
+				if why, ok := tparamsExceptions[fn.Name]; ok {
+					r.OK(rule, fn.Name, cons, pos, "frozen exception: "+why)
+					continue
+				}
+				good := false
+				switch x := fv.Val.(type) {
+				case *ir.Param:
+					good = true
+				case *ir.Field:
+					good = x.Name == "Tparams"
+				case *ir.Proj:
+					if _, ok := isCallTo(x.X, f.Path+".mightParseIdList"); ok && x.I == 1 {
+						good = true
+					}
+					if _, ok := isCallTo(x.X, f.Path+".parseIdList"); ok && x.I == 1 {
+						good = true
+					}
+				}
+				r.Check(good, rule, fn.Name, cons, pos, "the type-parameter list is the declared one ("+short(text, 80)+")",
+					"the type-parameter list of this "+tn+" is computed ("+short(text, 140)+") instead of being the declared list: explicit type arguments bind by position, so a list in another order (first appearance, sorted, distinct) silently binds them to the wrong parameters")
+			}
+			return true
+		})
+	}
+	r.Unit("tparams_construction_sites", n)
+}
